@@ -13,6 +13,7 @@ package c03
 import (
 	"fmt"
 	"os"
+	"runtime/pprof"
 	"slices"
 	"sort"
 	"strings"
@@ -138,6 +139,7 @@ type ctx struct {
 	deepSeen sync.Map // family/root -> digest of map_h
 	rpcSeen  sync.Map // family/root -> the rpc family did its exhaustive pass
 	deepAll  bool     // replay: no dedup
+	cont     contCounters
 }
 
 // run is one history on one replica.
@@ -163,6 +165,9 @@ type run struct {
 	kind     string // extension family the run belongs to ("" = plain history run)
 	top      uint32
 	sc       *chainx.Scenario
+	// heights below this one get the whole-trie range reads only (family reset-cont: the preamble
+	// heights no reset touched, which a designated case of every group questions in full)
+	lightBelow uint32
 }
 
 // out notes an outcome class seen in this history run (flushed once per run:
@@ -420,6 +425,9 @@ func (c *run) evaluate() {
 			cx.c.nonRetained.Inc()
 		}
 		c.light(s, retained)
+		if s.H < c.lightBelow {
+			continue
+		}
 		c.points(i, s, retained)
 		c.historic(s, retained)
 		if retained && !c.v.GC && !c.v.Latest {
@@ -875,6 +883,7 @@ func TestCheck(t *testing.T) {
 	vk.UseT(t)
 	r := vk.Start("C03", "model_checking", 170*time.Second, 24*time.Minute)
 	cx := &ctx{r: r, roots: vk.NewSet(), states: vk.NewSet()}
+	cx.cont.relations = vk.NewSet()
 	if r.Replay != "" {
 		replay(cx)
 		return
@@ -948,6 +957,9 @@ func TestCheck(t *testing.T) {
 	// the (few) cases of the extension families go first
 	var jobs []job
 	for _, e := range extJobs(cx) {
+		if f := os.Getenv("C03_DEV_EXT"); f != "" && !strings.HasPrefix(e.name, f) { // development aid: one extension family
+			continue
+		}
 		jobs = append(jobs, job{ext: e})
 	}
 	for i := 0; ; i++ {
@@ -960,6 +972,13 @@ func TestCheck(t *testing.T) {
 		}
 		if !more {
 			break
+		}
+	}
+	stopProf := func() {}
+	if pf := os.Getenv("C03_DEV_PROF"); pf != "" { // development aid: CPU profile of the job loop
+		if f, err := os.Create(pf); err == nil {
+			pprof.StartCPUProfile(f)
+			stopProf = func() { pprof.StopCPUProfile(); f.Close() }
 		}
 	}
 	r.Parallel(len(jobs), func(i int) {
@@ -1007,6 +1026,7 @@ func TestCheck(t *testing.T) {
 	for _, f := range fams {
 		famNames = append(famNames, f.Name)
 	}
+	stopProf()
 	c := &cx.c
 	avg := int64(0)
 	if c.heights.Get() > 0 {
@@ -1043,6 +1063,7 @@ func TestCheck(t *testing.T) {
 		"FindStates/SeekStates/TrieStore.Seek range semantics are taken from their doc comments (ordered map: forwards = keys >= prefix+start ascending, backwards = keys <= prefix+start descending); for an empty FindStates result both ErrNotFound and an empty list are accepted",
 		"pruned variants (RemoveUntraceableBlocks+GC after every flush, KeepOnlyLatestState) are held to O1-O3 for heights >= height-MaxTraceableBlocks (latest: the top height); below that an error / panic / early end of a listing or data equal to map_h is accepted, different data is not; historic invocations: with RemoveUntraceableBlocks they must agree for every retained height (docs/rpc.md only warns of limitations on available data) and below the window may be refused or FAULT but must not HALT with other data; with KeepOnlyLatestState they are unsupported",
 		"historic invocations are compared on VM state, stack, gas consumed and fault message; scripts do not read time",
+		"family reset-cont: a replica that was reset (Blockchain.Reset on a stopped node) and went on - as the same instance or after a restart - is additionally compared, at every height of its final chain, with a reference replica that was given the surviving blocks only (state root, flat storage, live invocation results; the reference must accept every block and the reset replica must accept every block valid on the surviving chain); a pruning replica refusing the first block after a reset is the open finding of C02 (reset-prune) and ends the case at the reset height",
 	})
 }
 
